@@ -395,8 +395,8 @@ def main(tier, seed):
         "buffer compaction in RespParser is unobservable and not modelled",
         "stack depth of the recursive descent is runtime behaviour (see C06); the model's fuel is discharged by theorem",
     ]
-    ok, log, errs = proof_phase(rep)
-    build_harness()
+    ok, log, errs = proof_phase(rep, families=["resp"])
+    build_harness("resp")
     c = C20(rep)
     try:
         c.run(seed, tier)
